@@ -57,8 +57,9 @@ def round32(m):
     return out
 
 def base_model(rng, quick):
-    # excluded on purpose: heads with a non-conductive inclusion - their head matrix is singular on the pinned tree
-    # (condition number 1e16, C10's known finding), so every gain is noise; one such model is replayed below.
+    # heads with a non-conductive inclusion stay out of the random sweep: their head matrix is regular since c10's cavity-wall
+    # repair (2b0b76f), but the EEG sensor projection then depends on the order of the Domains section (known finding,
+    # replayed below together with the former singular-matrix witness, which now agrees to rounding).
     # One-layer heads are regular since the repair of mark_current_barriers (parts of a single mesh are deflated).
     kind = rng.choice(["nested", "nested", "nested", "split", "inclusions"])
     def sig(): return rng.choice([1.0, 0.33, 0.0125, 1.79, 0.2])
@@ -251,6 +252,9 @@ def main(replay=None):
         wr = _r.Random(12345); wd, ws = sources_sensors(wm, wr)
         bi = len(runs); add(len(runs), wm, "tri", "1.1", False, wd, ws, "base", None)
         add(len(runs), gd.redescribe(wm, wr, "vertex_perm"), "tri", "1.1", False, wd, ws, "vertex_perm", bi)
+        # known witness: the same head with its Domains section listed in reverse order
+        wv = gd.redescribe(wm, wr, "identity"); wv["domains"] = list(reversed(wv["domains"]))
+        add(len(runs), wv, "tri", "1.1", False, wd, ws, "domain_order", bi)
     rc_, io, err = core.run_harness(hb, [r["hline"] for r in runs], ck.workdir, timeout=1500, env={"OMP_NUM_THREADS": "2"})
     outs = [core.fparse(l) for l in io]
     dist = {}; worst = {}; nontriv = 0
